@@ -55,11 +55,11 @@ def fn_at(unit, line):
 def run_unit(name, twin=False, seed=0, rlimit=None, extra_args=()):
     os.makedirs(WORK, exist_ok=True)
     res = UnitResult()
+    if twin is True:
+        twin = "entry"
     unit, text = assemble.assemble(name, twin=twin)
     res.unit, res.text = unit, text
     tag = hashlib.sha256(text.encode()).hexdigest()[:10]
-    if twin is True:
-        twin = "entry"
     d = tempfile.mkdtemp(prefix="%s%s-" % (name, "-twin" if twin else ""), dir=WORK)
     path = os.path.join(d, name.lower().replace("-", "_") + ("_twin" if twin else "") + ".rs")
     open(path, "w").write(text)
